@@ -41,7 +41,8 @@ where UnitCircle: Distribution<[F; 2]>, UnitDisc: Distribution<[F; 2]>, UnitSphe
                 Err(p) => { ev["res"] = json!(format!("Panic: {}", p)); }
                 Ok(v) => {
                     ev["res"] = json!("Ok");
-                    let f = |x: F, sc: f64| -> i64 { let y = x.f64v() * sc; if y.is_finite() { y.floor() as i64 } else { -999_999_999 } };
+                    let f = |x: F, sc: f64| -> i64 { let y = x.f64v() * sc; if y.is_finite() && y.abs() < 2.0e9 { y.floor() as i64 } else { 0 } };
+                    ev["finite"] = json!(v.iter().all(|x| x.is_finite()));
                     match kind {
                         "disc" | "ball" => { ev["q"] = json!(v.iter().map(|&x| f(x, 65536.0)).collect::<Vec<_>>()); }
                         "circle" => { ev["q"] = json!(v.iter().map(|&x| f(x, 1048576.0)).collect::<Vec<_>>()); }
@@ -63,21 +64,24 @@ where UnitCircle: Distribution<[F; 2]>, UnitDisc: Distribution<[F; 2]>, UnitSphe
 fn lat_more<F: Fx>(seed: u64, out: &mut Vec<String>)
 where UnitCircle: Distribution<[F; 2]>, UnitDisc: Distribution<[F; 2]>, UnitSphere: Distribution<[F; 3]>, UnitBall: Distribution<[F; 3]> {
     let mut rnd = Sm(seed);
-    let q = |x: F, sc: f64| -> i64 { let y = x.f64v() * sc; if y.is_finite() { y.floor() as i64 } else { -999_999_999 } };
+    let q = |x: F, sc: f64| -> i64 { let y = x.f64v() * sc; if y.is_finite() && y.abs() < 2.0e9 { y.floor() as i64 } else { 0 } };
     for kind in ["disc", "circle", "sphere", "ball"] {
         let dim = if kind == "ball" { 3usize } else { 2 };
-        // lat2
+        // lat2: r rejected corner proposals (r = 1 for the full coarse lattice, r up to 40 for a few proposals), then the lattice proposal
         let n = 16i64.pow(dim as u32);
-        for idx in 0..n {
+        let mut plan: Vec<(i64, usize)> = (0..n).map(|i| (i, 1usize)).collect();
+        for r in [2usize, 3, 5, 7, 8, 9, 12, 16, 25, 40] { for i in [0i64, n / 3 + 1, n / 2 + 3, n - 2] { plan.push((i, r)); } }
+        for (idx, nrej) in plan {
             let ks: Vec<i64> = (0..dim).map(|d| ((idx / 16i64.pow(d as u32)) % 16) * 2 - 16 + (idx % 2)).collect();
-            let mut words: Vec<u64> = vec![word_for::<F>(15); dim];
+            let mut words: Vec<u64> = vec![];
+            for j in 0..nrej { for d in 0..dim { words.push(word_for::<F>(if (j + d) % 2 == 0 { 15 } else { -16 })); } }    // corners (+-15/16 resp. -1): rejected
             words.extend(ks.iter().map(|&k| word_for::<F>(k)));
             let mut rng = ScriptRng::new(words, 23);
             let r = sample_kind::<F>(kind, &mut rng);
-            let acc = rng.words() == 2 * dim as u64;
+            let acc = rng.words() == ((nrej + 1) * dim) as u64;
             let mut ev = json!({"op": "lat2", "kind": kind, "ft": F::NAME, "k": ks, "words": rng.words(), "acc": acc});
             match r { Err(p) => { ev["res"] = json!(format!("Panic: {}", p)); }
-                Ok(v) => { ev["res"] = json!("Ok");
+                Ok(v) => { ev["res"] = json!("Ok"); ev["finite"] = json!(v.iter().all(|x| x.is_finite()));
                     match kind {
                         "disc" | "ball" => { ev["q"] = json!(v.iter().map(|&x| q(x, 65536.0)).collect::<Vec<_>>()); }
                         "circle" => { ev["q"] = json!(v.iter().map(|&x| q(x, 1048576.0)).collect::<Vec<_>>()); }
@@ -98,7 +102,7 @@ where UnitCircle: Distribution<[F; 2]>, UnitDisc: Distribution<[F; 2]>, UnitSphe
             let acc = rng.words() == dim as u64;
             let mut ev = json!({"op": "fine", "kind": kind, "ft": F::NAME, "k": ks, "words": rng.words(), "acc": acc});
             match r { Err(p) => { ev["res"] = json!(format!("Panic: {}", p)); }
-                Ok(v) => { ev["res"] = json!("Ok"); if kind == "disc" || kind == "ball" { ev["q"] = json!(v.iter().map(|&x| q(x, 65536.0)).collect::<Vec<_>>()); } } }
+                Ok(v) => { ev["res"] = json!("Ok"); ev["finite"] = json!(v.iter().all(|x| x.is_finite())); if kind == "disc" || kind == "ball" { ev["q"] = json!(v.iter().map(|&x| q(x, 65536.0)).collect::<Vec<_>>()); } } }
             out.push(ev.to_string());
         }
     }
